@@ -2624,7 +2624,9 @@ class RockRidge:
             # Not 1.12, so either 1.09 or 1.10.
             if sf_record_length == 12:
                 self.rr_version = '1.10'
-            else:
+            elif not continuation:
+                # A continuation area that carries no evidence must not
+                # override what the directory record's own area established.
                 self.rr_version = '1.09'
 
         namelist = [nm.posix_name for nm in self.dr_entries.nm_records]
